@@ -313,6 +313,7 @@ def main():
     a = ap.parse_args()
     if a.build_support:
         d, res = build_support()
+        print('support-dir', d)
         for k, v in res.items():
             print(k, v['verified'], 'verified', v['wall_s'], 's')
         return 0
